@@ -545,7 +545,7 @@ func (e *fnEnc) rpo() []*ssa.BasicBlock {
 }
 
 func (e *fnEnc) baseEnv() *cenv {
-	return &cenv{U: e.U, vars: map[string]Term{}, pkg: e.fn.Pkg.Pkg, heapSym: e.heapEntrySym}
+	return &cenv{U: e.U, vars: map[string]Term{}, pkg: e.V.P.typesPkg(e.fn), heapSym: e.heapEntrySym}
 }
 
 // encode builds the VC context and obligations of the function.
